@@ -220,6 +220,6 @@ public:
   }
 };
 DHarness h;
-struct Reg { Reg() { register_harness(&h); } } reg;
+struct Reg { Reg() { register_harness(&h); xsim::fn_probe("chase deque: grow executed", "4growE"); xsim::fn_pair_probe("chase deque: grow overlaps try_steal", "4growE", "9try_steal"); xsim::fn_pair_probe("chase deque: try_pop overlaps try_steal", "7try_pop", "9try_steal"); xsim::fn_pair_probe("chase deque: two try_steal overlap", "9try_steal", "9try_steal"); } } reg;
 } // namespace hx_deque
 XSIM_MAIN()
